@@ -259,7 +259,7 @@ func c17Grid(c *Ctx, idx int) {
 		}
 		if ok {
 			want := LibOut{M: &ref.Arr{E: parts}}
-			if !SameOutcome(whole, want, Enumerates(strings.Join(es, ""))) {
+			if !SameOutcome(whole, want, Enumerates("["+strings.Join(es, ", ")+"]")) {
 				c.Report(Violation{Rule: "C17/identity", Expr: "[" + strings.Join(es, ", ") + "]", Data: c17DocsText[d], Got: ShowOut(whole), Want: ref.Show(want.M) + " (concatenation of the single selections)", Features: map[string]string{"schema": "multi-select-list"}})
 			}
 			c.Nontrivial("msl", strings.Join(es, ","), fmt.Sprint(d))
